@@ -353,9 +353,18 @@ def r4_default_expand(ctx, res):
                                         f'dependent lexicon')
 
 
+def r5_paths_through_placeholders(ctx, res):
+    """chains of borrowed relations pass through several *INFERRED* placeholders, which all share id and rowid: the traversals
+    (relation_paths, closure) terminate and keep their visited sets by entity, never by id / rowid (C11-R1, C11-R6)."""
+    from .c11 import r1_termination, r6_visited_by_entity
+    r1_termination(ctx, res)
+    r6_visited_by_entity(ctx, res)
+
+
 RULES = [
     ('C12-R1', r1_provenance, 10),
     ('C12-R2', r2_nullness, 2),
     ('C12-R3', r3_order_and_switch, 3),
     ('C12-R4', r4_default_expand, 5),
+    ('C12-R5', r5_paths_through_placeholders, 8),
 ]
